@@ -64,3 +64,104 @@ Theorem C05_builder_census : forall dl,
   Permutation (days_postings (b_days (builder_of dl))) (flat_postings dl).
 Proof. exact builder_of_perm. Qed.
 Print Assumptions C05_builder_census.
+
+(* ------------------------------------------------------------------ 3. knut balance *)
+From Knut Require Import Model.Price Model.Table Model.Report Proofs.OrderPipeline.
+
+(* FULL STATEMENT (not proved to the end; the stages up to Query.Into are, see below):
+
+   Theorem C05_balance_perm : forall cfg sds1 sds2,
+     Permutation sds1 sds2 -> sd_syntactic sds1 -> no_conflicting_prices sds1 ->
+     ceq eq (balance_table cfg sds1) (balance_table cfg sds2).
+
+   i.e. both runs fail, or both print the same table (hence the same CSV and text bytes).  The
+   error itself legitimately differs (C05_error_depends_on_order), so no more than "both fail"
+   can hold for failing runs.
+   What is missing: Query.Into inserts the postings of a day into the report trees; a node's
+   amounts (Model/Report.v [ramounts]) is an association list in first-insertion order, so the
+   two reports are equal only up to the order of these lists, and the renderer (which looks
+   amounts up by key, sorts commodities, and sums with the commutative Dec.add) has to be shown
+   insensitive to that order.
+
+   PROVED (C05_balance_days_perm_partial): for every configuration, the whole pipeline in front
+   of the report -- ParseDirective incl. accrual expansion, the builder, --close's extra days,
+   the checker, ComputePrices, Valuate, Filter, CloseAccounts -- either fails on both inputs or
+   hands Query.Into the same partition and day lists that agree day by day in date, normalized
+   prices and, up to order, in their transactions: the valued postings, the value-adjustment
+   transactions and the closing transactions are the same multiset. *)
+Theorem C05_balance_days_perm_partial : forall cfg sds1 sds2,
+  Permutation sds1 sds2 -> sd_syntactic sds1 -> no_conflicting_prices sds1 ->
+  ceq (fun a b => Forall2 DIok (fst a) (fst b) /\ snd a = snd b) (balance_days cfg sds1) (balance_days cfg sds2).
+Proof. exact balance_days_perm. Qed.
+Print Assumptions C05_balance_days_perm_partial.
+
+(* [balance_days] is Cli.balance_report without its last stage *)
+Theorem C05_balance_report_is_days_then_query : forall cfg ds,
+  balance_report cfg ds =
+  cbind (balance_days cfg ds) (fun dp =>
+  cbind (run_stage (query_proc (balance_query cfg (snd dp)) report_insert) new_report (fst dp)) (fun r6 =>
+  COk (fst r6, snd dp))).
+Proof. exact balance_report_days. Qed.
+Print Assumptions C05_balance_report_is_days_then_query.
+
+(* the generic lemma behind every stage: a monadic fold whose steps commute pairwise (up to
+   "both fail or related states") gives equivalent results on permuted lists *)
+Theorem C05_foldM_perm : forall (S A : Type) (R : S -> S -> Prop) (f : S -> A -> presult S) (P : A -> Prop),
+  (forall a b c, R a b -> R b c -> R a c) ->
+  (forall s s' a, P a -> R s s' -> req R (f s a) (f s' a)) ->
+  (forall s a b, P a -> P b -> R s s ->
+     req R (rbind (f s a) (fun s1 => f s1 b)) (rbind (f s b) (fun s1 => f s1 a))) ->
+  forall l1 l2, Permutation l1 l2 -> Forall P l1 -> forall s s', R s s -> R s s' ->
+  req R (fold_res f s l1) (fold_res f s' l2).
+Proof. exact @fold_res_perm. Qed.
+Print Assumptions C05_foldM_perm.
+
+(* ------------------------------------------------------------------ 4. knut print *)
+
+(* both fail, or the two texts are journal.Print of day lists with the same dates and, per day
+   and kind, the same multiset of directives *)
+Theorem C05_print_equiv : forall l sds1 sds2,
+  Permutation sds1 sds2 -> sd_syntactic sds1 -> ceq print_equiv (print_cmd l sds1) (print_cmd l sds2).
+Proof. exact print_cmd_perm. Qed.
+Print Assumptions C05_print_equiv.
+
+(* ------------------------------------------------------------------ 5. file layout *)
+From Knut Require Import Model.Loader Proofs.LoaderProofs Proofs.OrderLayout.
+
+(* whatever the include tree looks like (depth, fan-out, relative paths, a file included more
+   than once): a successful load returns, up to order, the directives of the visited files,
+   each file as often as it is visited *)
+Theorem C05_layout : forall fs root fuel ds,
+  LoaderM.load fuel fs root = LOk ds ->
+  exists vs, visits fs root vs /\ Permutation ds (flat_map (file_directives fs) vs).
+Proof. exact load_layout. Qed.
+Print Assumptions C05_layout.
+
+
+(* ------------------------------------------------------------------ witnesses *)
+From Knut Require Import Proofs.OrderWitness.
+
+(* the hypotheses are satisfiable: a journal with three transactions on one day (two
+   commodities), two prices, an assertion; a permutation of it; for a valued, closed, monthly
+   configuration and for a plain one the two tables are equal (vm_compute) *)
+Example C05_example :
+  Permutation w_journal w_permuted /\ sd_syntactic w_journal /\ no_conflicting_prices w_journal /\
+  balance_table w_cfg w_journal = balance_table w_cfg w_permuted /\
+  balance_table w_cfg_plain w_journal = balance_table w_cfg_plain w_permuted /\
+  (exists t, balance_table w_cfg w_journal = COk t) /\
+  check_cmd_fixed w_journal = COk tt /\ check_cmd_fixed w_permuted = COk tt.
+Proof. exact (conj w_perm (conj w_syntactic (conj w_prices w_tables_equal))). Qed.
+
+(* the error of a rejected journal is not invariant: with two failing assertions on one day,
+   knut reports the one that arrived first (kinds "assertion" vs "notopen") *)
+Example C05_error_depends_on_order :
+  Permutation (w_journal ++ [w_bad1; w_bad2]) (w_journal ++ [w_bad2; w_bad1]) /\
+  sd_syntactic (w_journal ++ [w_bad1; w_bad2]) /\
+  (exists d, check_cmd_fixed (w_journal ++ [w_bad1; w_bad2]) = CErr k_assertion d) /\
+  (exists d, check_cmd_fixed (w_journal ++ [w_bad2; w_bad1]) = CErr k_not_open d).
+Proof. exact w_error_depends_on_order. Qed.
+
+(* a file included along two paths is loaded twice (C05_layout counts visits, not files) *)
+Example C05_layout_diamond : forall d,
+  LoaderM.load (fuel_for (fs_diamond d)) (fs_diamond d) [[97]] = LOk [d; d].
+Proof. exact diamond_loads_twice. Qed.
